@@ -188,7 +188,29 @@ fn run_lut<T: L>(toks: &[&str]) -> Option<String> {
         }
         ("get", 4) => {
             let l: T = mk(&parse_tab(t[2])?);
-            format!("ok {}", show_bool(l.get_bit_(us(t[3])?)))
+            // `value` and `get_bit` are two names of the same accessor
+            let m = us(t[3])?;
+            let a = l.get_bit_(m);
+            if l.value_(m) != a {
+                return Some("ok forms-disagree".into());
+            }
+            format!("ok {}", show_bool(a))
+        }
+        ("linfo", 3) => {
+            let l: T = mk(&parse_tab(t[2])?);
+            format!("ok {} {} {}", l.nv(), l.num_bits_(), l.num_blocks_())
+        }
+        ("dflags", 4) => {
+            let l: T = mk(&parse_tab(t[2])?);
+            let d = l.decomp(us(t[3])?);
+            format!(
+                "ok {} {} {} {} {}",
+                show_decomp(&d),
+                show_bool(d.is_trivial()),
+                show_bool(d.is_and_type()),
+                show_bool(d.is_xor_type()),
+                show_bool(d.is_simple_gate())
+            )
         }
         ("set", 5) => {
             let mut l: T = mk(&parse_tab(t[2])?);
@@ -469,6 +491,31 @@ fn run_sop_ops(t: &[&str]) -> Option<String> {
         ("cube", "fromvars", 4) => {
             format!("ok {}", show_cube(&Cube::from_vars(&parse_nats(t[2])?, &parse_nats(t[3])?)))
         }
+        ("cube", "isconstant", 3) => format!("ok {}", show_bool(parse_cube(t[2])?.is_constant())),
+        // the small constructors of the two-level types: `fctor <type> <name> <n> <v>`
+        ("fctor", ty, 5) => {
+            let n = us(t[3])?;
+            let v = us(t[4])?;
+            match (ty, t[2]) {
+                ("ecube", "one") => format!("ok {}", show_ecube(&Ecube::one())),
+                ("ecube", "zero") => format!("ok {}", show_ecube(&Ecube::zero())),
+                ("ecube", "nthvar") => format!("ok {}", show_ecube(&Ecube::nth_var(v))),
+                ("ecube", "nthvarinv") => format!("ok {}", show_ecube(&Ecube::nth_var_inv(v))),
+                ("sop", "zero") => format!("ok {}", show_cubes(Sop::zero(n).cubes())),
+                ("sop", "one") => format!("ok {}", show_cubes(Sop::one(n).cubes())),
+                ("sop", "nthvar") => format!("ok {}", show_cubes(Sop::nth_var(n, v).cubes())),
+                ("sop", "nthvarinv") => format!("ok {}", show_cubes(Sop::nth_var_inv(n, v).cubes())),
+                ("esop", "zero") => format!("ok {}", show_cubes(Esop::zero(n).cubes())),
+                ("esop", "one") => format!("ok {}", show_cubes(Esop::one(n).cubes())),
+                ("esop", "nthvar") => format!("ok {}", show_cubes(Esop::nth_var(n, v).cubes())),
+                ("esop", "nthvarinv") => format!("ok {}", show_cubes(Esop::nth_var_inv(n, v).cubes())),
+                ("soes", "zero") => format!("ok {}", show_ecubes(Soes::zero(n).cubes())),
+                ("soes", "one") => format!("ok {}", show_ecubes(Soes::one(n).cubes())),
+                ("soes", "nthvar") => format!("ok {}", show_ecubes(Soes::nth_var(n, v).cubes())),
+                ("soes", "nthvarinv") => format!("ok {}", show_ecubes(Soes::nth_var_inv(n, v).cubes())),
+                _ => return None,
+            }
+        }
         ("cube", "info", 3) => {
             let c = parse_cube(t[2])?;
             format!(
@@ -747,7 +794,7 @@ fn run_inner(t: &[&str]) -> Option<String> {
                 _ => return None,
             });
         }
-        "cube" | "ecube" | "sop" | "esop" | "soes" => return run_sop_ops(t),
+        "cube" | "ecube" | "sop" | "esop" | "soes" | "fctor" => return run_sop_ops(t),
         _ => {}
     }
     let ty = *t.get(1)?;
